@@ -2,7 +2,7 @@
 exhaustive single-corruption enumeration of four multi-model base traces, run
 through the real tools built from the tree."""
 import os, shutil, json, itertools, struct, time
-from lib.common import Ctx, Build, Scratch, InfraError, pmap
+from lib.common import Ctx, Build, Scratch, InfraError, pmap, plan_of
 from lib import emusrv, catalog, mutate, obs
 
 
@@ -18,6 +18,8 @@ def write_files(td, files):
 
 def run_c12(prop, tier):
     ctx = Ctx("C12", tier, "fault_enumeration")
+    tier = plan_of("C12", tier)
+    ctx.cov["plan"] = tier
     scratch = Scratch("C12")
     try:
         build = Build()
